@@ -277,6 +277,10 @@ def oracle_login(f, ctxv):
                 ctxv(f'login() started with {obs[:1]} instead of writing the login request first')
             break
     k_ret = [k for k, o in enumerate(f.obs) if o == ['ret', u, r]][0]
+    first_reply = next((int(t[1]) for it in f.script if it[0] == 'data' for t in it[1] if t not in ('hb', 'logout', 'bad')), None)
+    first_frame = next((t for it in f.script if it[0] == 'data' for t in it[1] if t != 'hb'), None)
+    if r == 'ok' and (first_frame in ('logout', 'bad') or (first_reply is not None and first_reply != 0)):
+        ctxv(f'login succeeded although the first reply was not an acceptance (first frame: {first_frame})')
     if r == 'ok':
         early = [o for o in f.obs[:k_ret] if isinstance(o, list) and o[0] == 'msgEnter']
         if early:
